@@ -183,7 +183,8 @@ class Ctx:
                 # theorem spans by line number
                 starts = [(i + 1, mm.group(1)) for i, l in enumerate(src_lines)
                           if (mm := re.match(r"theorem\s+([^\s:({\[]+)", l))]
-                errs = [int(x) for x in re.findall(re.escape(rel) + r":(\d+):\d+: error", log)]
+                errs = [int(x) for x in re.findall(r"error: (?:\./)?" + re.escape(rel) + r":(\d+):\d+", log)]
+                errs += [int(x) for x in re.findall(re.escape(rel) + r":(\d+):\d+: error", log)]
                 hit = set()
                 for e in errs:
                     cands = [n for (ln, n) in starts if ln <= e]
